@@ -29,6 +29,17 @@ CHECKS = {
             "TLC trace validation of the evaluation's relational contract using Chess!Mirror", "5 C14"),
     "C15": (MC, "Spec direction: positions rendered as FEN with boundary counters, TLC checks the string equals Chess!ToFen and the loaded state equals the position; totality: mutated and random strings must give Ok or Err (panics caught as data); the real binary's command line must exit 0 on all of them.",
             "'All strings' is sampled.", "TLC trace validation of from_fen against Chess!ToFen/Decode + mutation fuzzing judged by the trace spec", "5 C15"),
+    "C07": (MC, "Fault enumeration under a substitutable clock, judged by the specification: for each scenario one run of the real get_best_move per clock-expiry index k = 0..K (every k when K <= cap); TLC (TraceSearch.tla) checks per run that infos and sends are prefixes of the reference run or exactly the fallback, nothing is accepted after the first expired query, the repetition record is restored, no panic, sends are legal root moves with the right board. Search.tla (the engine's PVS/quiescence/root loop transcribed, clock expiring at query k) is model-checked on generated trees x every k; the variant without the root's clock re-check fails (InvPrefix).",
+            "Expiry points are enumerated at alpha_beta_search/root granularity (every out_of_time call site); positions are sampled.",
+            "TLC model check of Search.tla over (tree x expiry index) + TLC trace validation of real runs for every expiry index", "5 C07"),
+    "C10": (MC, "Record: games with forced repetitions through play_out_position and through the real command loop (instrumented binary, several position commands per session); TLC recomputes the multiset of Chess!Identity over the history and compares. Search: histories built so that the mover can step into a position seen twice; TLC requires the last score of each completed depth >= 0 and equality with Search!Ref (count >= 2 rule) on the recorded tree. MC_Search invariant RepDraw; the variant with the pinned commit's `== 2` test fails.",
+            "Histories are sampled; repetition counts above 255 are out of reach.", "TLC trace validation (Identity multiset; Ref with repetition rule) + TLC model check of Search.tla (RepDraw)", "5 C10"),
+    "C11": (MC, "Real searches (virtual clock, depth 4-5) on generated mate-in-one / avoidable-mate / random endgame positions; TLC re-derives on Chess.tla the mating moves, the safe moves, MateWithin(root, N) for every positive `score mate N` line and MatedWithin for the final line of completed depths. MC_Search invariant MateInOne on abstract trees.",
+            "Mate claims are re-derived up to N = 2 (quick) / 3 (thorough); positions are small endgames (sampling).", "TLC trace validation of mate claims against Chess!MateWithin + TLC model check of Search.tla", "5 C11"),
+    "C12": (MC, "The harness records the full game tree (engine's own generator and evaluator) to depth 3 and runs the real search; TLC evaluates Search!Ref - the property's own definition of minimax with check extension, quiescence, mate and repetition leaf rules - on the recorded tree and requires for D = 1, 2, 3 the last reported score and the value of the selected move to equal it, with and without history. MC_Search invariant Exact: AB = Ref on all generated trees.",
+            "Trees are capped at 60000 nodes: rich middlegames are covered at depth 1-2 or skipped (counted in the evidence).", "reference-value re-derivation in TLA+ (Search!Ref) on recorded trees + TLC model check AB = Ref", "5 C12"),
+    "C18": (MC, "Every info line of reference runs to depth 4 and of every enumerated expiry point is tokenised strictly and judged by TraceSearch.tla (shape, depth, mate value, bounds, strict increase inside a depth, first pv move legal); MC_Search invariant ScoresOk over trees x expiry indices; info lines of timed runs of the real binary are judged by TraceUci.tla.",
+            "PV moves are (from,to) pairs in the engine, so promotion letters are absent from the pv: legality is judged on from/to.", "TLC trace validation of info lines + TLC model check (ScoresOk)", "5 C18"),
 }
 claimed = sorted(CHECKS)
 m = {
